@@ -11,6 +11,9 @@ import EdzedProofs.ErrorReg
 import EdzedProps.C09
 import EdzedModel.Gen.Translated
 import EdzedModel.Gen.TranslatedExt
+import EdzedModel.Wiring
+import EdzedProofs.BlkCtor
+import EdzedProofs.BlkCtorTie
 
 namespace Edzed.ExtEvent
 open ErrorReg
@@ -314,5 +317,422 @@ theorem translated_ext_send_is_model (ready : Bool) (dflt : String) (value : Opt
       simp only [Option.getD_some]
       rw [e1, e2]
       exact core _
+
+
+/-! ### the constructors and the circuit registry, translated
+
+tools/py2lean_blkctor.py regenerates `Gen/TranslatedBlkCtor.lean` from the current source of `check_name`,
+`Block.__init__`, `Block.has_method`, `SBlock.__init__`, `CBlock.__init__`, `ExtEvent.__init__`,
+`Const.__new__/__init__`, `Circuit.__init__`, `Circuit.is_current_task`, `get_circuit`, `reset_circuit`: programs over a
+heap of objects whose leaves are parameters (`BlkCtorPy.CPrims`).  `BlkCtorTie.prims` instantiates the leaves on the
+heap of `EdzedModel/BlkCtor.lean`; the theorems `translated_ctor_…_is_model` say that the generated programs ARE the
+model's functions, for all arguments and all states.  The property-level statements follow. -/
+
+open Edzed.BlkCtorPy Edzed.BlkCtor Edzed.BlkCtorTie
+
+theorem translated_ctor_check_name_is_model (a : Arg Nat) (nametype : String) (w : World) :
+    Gen.TrBC.checkName prims a nametype w = (w, (checkName a).map fun _ => ()) := checkName_tie a nametype w
+
+/-- `Circuit()` = allocation + the translated `Circuit.__init__`: the new object carries exactly the nine
+    attributes of `freshCircuitAttrs`, in that order -/
+theorem translated_ctor_circuit_init_is_model (w : World) :
+    Gen.TrBC.circuitCall prims w = ((newCircuit w).1, .ok (newCircuit w).2) := circuitCall_tie w
+
+theorem translated_ctor_get_circuit_is_model (w : World) :
+    Gen.TrBC.getCircuit prims w = ((getCircuit w).1, .ok (some (getCircuit w).2)) := getCircuit_tie w
+
+theorem translated_ctor_reset_circuit_is_model (w : World) :
+    Gen.TrBC.resetCircuit prims w = (resetCircuit w, .ok ()) := resetCircuit_tie w
+
+theorem translated_ctor_is_current_task_is_model (c : Nat) (w : World) :
+    Gen.TrBC.isCurrentTask prims c w = (w, .ok (isCurrentTask w c)) := isCurrentTask_tie c w
+
+theorem translated_ctor_has_method_is_model (o : Nat) (name : String) (w : World) :
+    Gen.TrBC.hasMethod prims o name w = (w, hasMethod w o name) := hasMethod_tie o name w
+
+theorem translated_ctor_block_init_is_model (self : Nat) (name comment onOutput reserved debug : Arg Nat)
+    (xkw : Kw (Arg Nat)) (w : World) :
+    Gen.TrBC.blockInit prims self name comment onOutput reserved debug xkw w
+      = blockInit w self name comment onOutput reserved debug xkw :=
+  blockInit_tie self name comment onOutput reserved debug xkw w
+
+/-- the binding of `*args / **kwargs` to the signature of `Block.__init__` and its DEFAULTS
+    (`comment=""`, `on_output=None`, `_reserved=False`, `debug=False`) -/
+theorem translated_ctor_block_call_is_model (self : Nat) (args : List (Arg Nat)) (kw : Kw (Arg Nat)) (w : World) :
+    Gen.TrBC.blockInitCall prims self args kw w = blockInitCall w self args kw := blockInitCall_tie self args kw w
+
+theorem translated_ctor_sblock_init_is_model (self : Nat) (args : List (Arg Nat)) (onEvery : Arg Nat)
+    (kw : Kw (Arg Nat)) (w : World) :
+    Gen.TrBC.sblockInit prims self args onEvery kw w = sblockInit w self args onEvery kw :=
+  sblockInit_tie self args onEvery kw w
+
+theorem translated_ctor_sblock_call_is_model (self : Nat) (args : List (Arg Nat)) (kw : Kw (Arg Nat)) (w : World) :
+    Gen.TrBC.sblockInitCall prims self args kw w = sblockInitCall w self args kw := sblockInitCall_tie self args kw w
+
+theorem translated_ctor_cblock_init_is_model (self : Nat) (args : List (Arg Nat)) (kw : Kw (Arg Nat)) (w : World) :
+    Gen.TrBC.cblockInit prims self args kw w = cblockInit w self args kw := cblockInit_tie self args kw w
+
+theorem translated_ctor_cblock_call_is_model (self : Nat) (args : List (Arg Nat)) (kw : Kw (Arg Nat)) (w : World) :
+    Gen.TrBC.cblockInitCall prims self args kw w = cblockInitCall w self args kw := cblockInitCall_tie self args kw w
+
+theorem translated_ctor_ext_init_is_model (self : Nat) (dest etype source : Arg Nat) (w : World) :
+    Gen.TrBC.extInit prims self dest etype source w = extInit w self dest etype source :=
+  extInit_tie self dest etype source w
+
+/-- the defaults of `ExtEvent(dest, etype='put', source='_ext_')` -/
+theorem translated_ctor_ext_call_is_model (self : Nat) (args : List (Arg Nat)) (kw : Kw (Arg Nat)) (w : World) :
+    Gen.TrBC.extInitCall prims self args kw w = extInitCall w self args kw := extInitCall_tie self args kw w
+
+/-- `Const(value)` = the translated `__new__` followed by the translated `__init__` -/
+theorem translated_ctor_const_is_model (cls : String) (v : Arg Nat) (w : World) :
+    Gen.TrBC.constCall prims cls v w = constCall w cls v := constCall_tie cls v w
+
+/-! #### the reserved names (C14: "user-defined blocks cannot have names beginning with an underscore") -/
+
+/-- a given name beginning with `_` is refused with ValueError for EVERY falsy `_reserved` (False, None, 0, '',
+    (), UNDEF …), whatever the other arguments and the state are -/
+theorem translated_ctor_underscore_name_refused (w : World) (self : Nat) (s : String)
+    (comment onOutput reserved debug : Arg Nat) (xkw : Kw (Arg Nat))
+    (hs : strStartsWith s "_" = true) (hr : reserved.truthy = false) :
+    (Gen.TrBC.blockInit prims self (.val (.str s)) comment onOutput reserved debug xkw w).2 = .error "ValueError" := by
+  rw [blockInit_tie]
+  have hne : (s == "") = false := by
+    cases he : (s == "") with
+    | false => rfl
+    | true =>
+      have : s = "" := by simpa using he
+      subst this
+      exact absurd hs (by decide)
+  have hn : Arg.isNone (Arg.val (Val.str s) : Arg Nat) = false := rfl
+  have hst : Arg.str? (Arg.val (Val.str s) : Arg Nat) = some s := rfl
+  simp [blockInit, blockName, checkName, hn, hst, hne, hs, hr]
+
+/-- non-vacuity: `_ctrl` without `_reserved` in an empty world -/
+example : outcome (Gen.TrBC.blockInit prims 0 (.val (.str "_ctrl")) (.val (.str "")) .none (.val (.bool false))
+    (.val (.bool false)) [] { heap := [{ cls := "K", bases := ["K", "SBlock", "Block"] }] }).2
+      = "ValueError" := by decide
+
+/-- a name that is neither None nor a str is a TypeError, the empty string a ValueError -/
+theorem translated_ctor_bad_name_refused (w : World) (self : Nat) (name comment onOutput reserved debug : Arg Nat)
+    (xkw : Kw (Arg Nat)) (hn : name.isNone = false) :
+    (name.str? = none →
+      (Gen.TrBC.blockInit prims self name comment onOutput reserved debug xkw w).2 = .error "TypeError")
+    ∧ (name.str? = some "" →
+      (Gen.TrBC.blockInit prims self name comment onOutput reserved debug xkw w).2 = .error "ValueError") := by
+  rw [blockInit_tie]
+  constructor <;> intro hs <;> simp [blockInit, blockName, checkName, hn, hs]
+
+/-- a successful `Block.__init__` on an existing object has stored as `self.name` what the name rules
+    (`BlkCtor.blockName`) give for the given name, `_reserved`, the class and the names already in the circuit -/
+theorem translated_ctor_block_init_stores_name (w w' : World) (self : Nat)
+    (name comment onOutput reserved debug : Arg Nat) (xkw : Kw (Arg Nat)) (hs : self < w.heap.length)
+    (h : Gen.TrBC.blockInit prims self name comment onOutput reserved debug xkw w = (w', .ok ())) :
+    ∃ nm cls names, blockName name reserved cls names = .ok nm ∧ w'.get? self "name" = some (.arg nm) := by
+  rw [blockInit_tie] at h
+  exact blockInit_name_stored w w' self name comment onOutput reserved debug xkw hs h
+
+/-- **the reserved-name rule of C14 over ALL names and ALL `_reserved` values**: a name accepted by the rules
+    of `Block.__init__` begins with `_ext_` exactly when
+    (a) no name was given and the class is called `ext` or `ext_…` (the automatic name `_ext_<n>`: the known
+        finding C14-auto-name-of-class-ext), or
+    (b) a marked name was given together with a true `_reserved` (edzed's own reserved blocks; none of them is
+        called `_ext_…`).
+    So without `_reserved` the only forgeable case is (a). -/
+theorem translated_ctor_accepted_name_marked_iff (name reserved : Arg Nat) (cls : String) (names : List String)
+    (nm : Arg Nat) (h : blockName name reserved cls names = .ok nm) :
+    argMarked nm = true ↔
+      (name.isNone = true ∧ (cls.toList = ['e', 'x', 't'] ∨ strStartsWith cls "ext_" = true))
+      ∨ (name.isNone = false ∧ reserved.truthy = true ∧ argMarked name = true) :=
+  accepted_name_marked_iff name reserved cls names nm h
+
+/-- the case the rule does NOT exclude, exposed: the automatic name of a block of a class called `ext` is accepted
+    and begins with `_ext_` -- for every state of the circuit (whatever blocks exist already) -/
+theorem translated_ctor_auto_name_of_class_ext_is_marked (reserved : Arg Nat) (names : List String) :
+    ∃ nm, blockName .none reserved "ext" names = .ok nm ∧ argMarked nm = true := by
+  refine ⟨_, rfl, ?_⟩
+  rw [accepted_name_marked_iff .none reserved "ext" names _ rfl]
+  exact Or.inl ⟨rfl, Or.inl (by decide)⟩
+
+/-- … replayed through the translated constructor: `class ext(SBlock)`, `ext(None)` in a fresh world registers
+    the block `_ext_0` -/
+example :
+    let w0 : World := { heap := [{ cls := "ext", bases := ["ext", "SBlock", "Block"] }] }
+    let r := Gen.TrBC.sblockInitCall prims 0 [Arg.none] [] w0
+    outcome r.2 = "ok" ∧ r.1.nameOf 0 = "_ext_0" ∧ (r.1.blocks 1).map (·.1) = ["_ext_0"] := by decide
+
+/-- without `_reserved` no GIVEN name is marked: (b) needs a true `_reserved` -/
+theorem translated_ctor_given_name_never_marked (name reserved : Arg Nat) (cls : String) (names : List String)
+    (nm : Arg Nat) (hn : name.isNone = false) (hr : reserved.truthy = false)
+    (h : blockName name reserved cls names = .ok nm) : argMarked nm = false := by
+  cases hm : argMarked nm with
+  | false => rfl
+  | true =>
+    rcases (accepted_name_marked_iff name reserved cls names nm h).mp hm with h1 | h1
+    · rw [hn] at h1; cases h1.1
+    · rw [hr] at h1; cases h1.2.1
+
+/-- for a name GIVEN without `_reserved` the rules of the translated `Block.__init__` are the model of the names
+    that `internal_source_never_ext_partial` talks about (`BlockName.user … .accepted`) -/
+theorem translated_ctor_user_name_rule_is_block_name_model (s cls : String) (names : List String) :
+    (blockName (.val (.str s)) (.val (.bool false)) cls names).toOption.isSome
+      = (ExtEvent.BlockName.user s.toList).accepted := by
+  have hn : Arg.isNone (Arg.val (Val.str s) : Arg Nat) = false := rfl
+  have hst : Arg.str? (Arg.val (Val.str s) : Arg Nat) = some s := rfl
+  have hr : Arg.truthy (Arg.val (Val.bool false) : Arg Nat) = false := by decide
+  have h1 : "_".toList = ['_'] := by decide
+  unfold blockName checkName ExtEvent.BlockName.accepted strStartsWith
+  simp only [hn, hst, hr, h1, Bool.false_eq_true, ↓reduceIte, Bool.not_false, Bool.and_true]
+  by_cases h : s = ""
+  · subst h; rfl
+  · have hne : s.toList ≠ [] := fun e => h (String.toList_eq_nil_iff.mp e)
+    cases hl : s.toList with
+    | nil => exact absurd hl hne
+    | cons c r =>
+      have hs : (s == "") = false := by simp [h]
+      by_cases hc : c = '_'
+      · subst hc; simp [hs, hl, Except.toOption]
+      · have h3 : ¬ '_' = c := fun e => hc e.symm
+        have h4 : (some c != some '_') = true := by simp [hc]
+        simp [hs, hl, h3, h4, Except.toOption]
+
+/-- the automatic name is the one of the model of the names (`BlockName.auto`) -/
+theorem translated_ctor_auto_name_is_render (cls : String) (names : List String) :
+    (autoName cls names).toList = (ExtEvent.BlockName.auto cls.toList
+      (pyStrNat (names.countP fun n => strStartsWith n ("_" ++ cls ++ "_"))).toList).render := by
+  unfold autoName ExtEvent.BlockName.render
+  simp only [String.toList_append]
+  have : "_".toList = ['_'] := by decide
+  rw [this]
+  simp
+
+/-- a keyword argument that begins neither with `x_` nor with `X_` is refused -/
+theorem translated_ctor_refused_keyword (w : World) (self : Nat) (name comment onOutput reserved debug : Arg Nat)
+    (xkw : Kw (Arg Nat)) (hbad : xkw.any (fun p => !goodKey p.1) = true) :
+    ∃ w' e, Gen.TrBC.blockInit prims self name comment onOutput reserved debug xkw w = (w', .error e) := by
+  rw [blockInit_tie]
+  exact blockInit_refuses_keyword w self name comment onOutput reserved debug xkw hbad
+
+example : ∃ w' e, Gen.TrBC.blockInit prims 0 (.val (.str "a")) .none .none .none .none [("x_ok", .none), ("colour", .none)]
+    { heap := [{ cls := "K", bases := ["K", "SBlock", "Block"] }] } = (w', .error e) :=
+  translated_ctor_refused_keyword _ _ _ _ _ _ _ _ (by decide)
+
+/-! #### the source of an ExtEvent -/
+
+/-- **every constructed ExtEvent carries a marked default source**: for every `source` argument (the empty string
+    included) a successful `ExtEvent.__init__` stored a str beginning with `_ext_` as `_source` -/
+theorem translated_ctor_ext_source_marked (w w' : World) (self : Nat) (dest etype source : Arg Nat)
+    (hs : self < w.heap.length) (h : Gen.TrBC.extInit prims self dest etype source w = (w', .ok ())) :
+    ∃ s src, source.str? = some s ∧ w'.get? self "_source" = some (.str src) ∧ src = extSource s
+      ∧ strStartsWith src "_ext_" = true := by
+  rw [extInit_tie] at h
+  obtain ⟨s, h1, h2⟩ := extInit_source_stored w w' self dest etype source h
+  exact ⟨s, extSource s, h1, h2 hs, rfl, extSource_marked s⟩
+
+/-- a `source` that is not a str -- None included -- is refused, whatever the destination and event type -/
+theorem translated_ctor_ext_non_string_source_refused (w : World) (self : Nat) (dest etype source : Arg Nat)
+    (hs : source.str? = none) :
+    ∃ w' e, Gen.TrBC.extInit prims self dest etype source w = (w', .error e) := by
+  rw [extInit_tie]
+  exact extInit_non_string_source w self dest etype source hs
+
+/-- `source=''` gives the bare mark; `source=None` a TypeError (non-vacuity of the two theorems above) -/
+example :
+    let w0 : World := { heap := [{ cls := "Circuit", bases := ["Circuit"], attrs := [("_blocks", .dict [("b", 1)])] },
+                                 { cls := "K", bases := ["K", "SBlock", "Block"] }, {}], current := some 0 }
+    (Gen.TrBC.extInit prims 2 (.val (.str "b")) (.val (.str "put")) (.val (.str "")) w0).1.get? 2 "_source"
+        = some (.str "_ext_")
+    ∧ outcome (Gen.TrBC.extInit prims 2 (.val (.str "b")) (.val (.str "put")) .none w0).2 = "TypeError"
+    ∧ (Gen.TrBC.extInitCall prims 2 [.obj 1] [] w0).1.get? 2 "_source" = some (.str "_ext_") := by decide
+
+/-- the stored source is the one of the model of `send` and of the older value translation -/
+theorem translated_ctor_ext_source_is_mkSource (s : String) :
+    extSource s = ExtEvent.mkSource s ∧ extSource s = Gen.Tr.extSource s := by
+  have hp : Gen.extPrefix = "_ext_" := by decide
+  constructor
+  · unfold extSource ExtEvent.mkSource ExtEvent.prefixed ExtEvent.pfx strStartsWith
+    rw [hp]
+  · rw [translated_ext_source_is_model]
+    unfold extSource ExtEvent.mkSource ExtEvent.prefixed ExtEvent.pfx strStartsWith
+    rw [hp]
+
+/-- the kind of destination, as the older model of the constructor (`ExtEvent.ctor`) classifies it -/
+def extDestKind (w : World) : Arg Nat → ExtEvent.Dest
+  | .val (.atom (.str n)) =>
+    match findblock (getCircuit w).1 (getCircuit w).2 n with
+    | none => .unknownName
+    | some b => if (getCircuit w).1.isInstance b "SBlock" then .sblockName else .cblockName
+  | .obj o =>
+    if w.isInstance o "Block" then (if w.isInstance o "SBlock" then .sblockObj else .cblockObj) else .notABlock
+  | .val _ => .notABlock
+
+def extCtorOutcome : ExtEvent.CtorRes → String
+  | .ok _ => "ok"
+  | .typeError => "TypeError"
+  | .keyError => "KeyError"
+
+/-- the translated `ExtEvent.__init__` refines the constructor model the correspondence has compared with the real
+    code from the start (`ExtEvent.ctor`: six kinds of destination x event type x source): same outcome -/
+theorem translated_ctor_ext_init_refines_ctor (w : World) (self : Nat) (dest : Arg Nat) (e s : Val) :
+    outcome (Gen.TrBC.extInit prims self dest (.val e) (.val s) w).2
+      = extCtorOutcome (ExtEvent.ctor (extDestKind w dest) e s) := by
+  rw [extInit_tie]
+  have key : ∀ (w1 : World) (d : Arg Nat), isSBlock w1 d = true →
+      outcome (match (Arg.val e : Arg Nat).str? with
+        | none => (w1, (Except.error "TypeError" : Except PyExc Unit))
+        | some e' =>
+          if e' == "" then (w1, .error "TypeError")
+          else
+            match (Arg.val s : Arg Nat).str? with
+            | none => (w1, .error "TypeError")
+            | some s' =>
+              (((w1.setAttr self "_dest" (.arg d)).setAttr self "_etype" (.arg (.val e))).setAttr self "_source"
+                (.str (extSource s')), .ok ())).2
+        = extCtorOutcome (match e with
+            | .atom (.str e) =>
+              if e == "" then ExtEvent.CtorRes.typeError
+              else match s with
+                | .atom (.str s) => .ok (ExtEvent.mkSource s)
+                | _ => .typeError
+            | _ => .typeError) := by
+    intro w1 d _
+    rcases e with _ | a | l | l
+    · rfl
+    · cases a with
+      | none => rfl
+      | num q k => rfl
+      | str e' =>
+        simp only [Arg.str?]
+        by_cases he : (e' == "") = true
+        · simp [he, outcome, extCtorOutcome]
+        · simp only [he, Bool.false_eq_true, ↓reduceIte]
+          rcases s with _ | a2 | l | l
+          · rfl
+          · cases a2 <;> rfl
+          · rfl
+          · rfl
+    · rfl
+    · rfl
+  unfold extInit extDest extDestKind
+  rcases dest with v | o
+  · rcases v with _ | a | l | l
+    · rfl
+    · cases a with
+      | none => rfl
+      | num q k => rfl
+      | str n =>
+        simp only [Arg.str?]
+        cases hf : findblock (getCircuit w).1 (getCircuit w).2 n with
+        | none => rfl
+        | some b =>
+          simp only
+          by_cases hsb : (getCircuit w).1.isInstance b "SBlock" = true
+          · simp only [isSBlock, hsb, Bool.not_true, Bool.false_eq_true, ↓reduceIte]
+            exact key _ (.obj b) (by simp [isSBlock, hsb])
+          · simp only [isSBlock, hsb, Bool.not_false, ↓reduceIte, Bool.false_eq_true]
+            rfl
+    · rfl
+    · rfl
+  · simp only [Arg.str?]
+    by_cases hb : w.isInstance o "Block" = true
+    · simp only [hb, ↓reduceIte]
+      by_cases hsb : w.isInstance o "SBlock" = true
+      · simp only [isSBlock, hsb, Bool.not_true, Bool.false_eq_true, ↓reduceIte]
+        exact key _ (.obj o) (by simp [isSBlock, hsb])
+      · simp only [isSBlock, hsb, Bool.not_false, ↓reduceIte, Bool.false_eq_true]
+        rfl
+    · simp only [hb, Bool.false_eq_true, ↓reduceIte]
+      rfl
+
+
+/-! #### the initial state of a circuit -/
+
+/-- **the state every other model starts from**: right after `Circuit.__init__` (translated) the circuit is not
+    ready (`Circuit.is_ready()` -- the translated `Gen.Tr.isReady` -- is false), has no simulation task, no
+    error, is not finalized and has no blocks: the initial `ErrorReg.St` and the initial `Wiring.Circ` -/
+theorem translated_ctor_fresh_circuit_state (w w' : World) (c : Nat)
+    (h : Gen.TrBC.circuitCall prims w = (w', .ok c)) :
+    Gen.Tr.isReady (if w'.attrIsNone c "_simtask" then none else some ())
+        (if w'.attrIsNone c "_error" then none else some ()) = false
+    ∧ isReady w' c = ({} : ErrorReg.St).ready
+    ∧ (w'.attrIsNone c "_simtask" = true ↔ ({} : ErrorReg.St).phase = .notStarted)
+    ∧ (w'.attrIsNone c "_error" = true ↔ ({} : ErrorReg.St).error = none)
+    ∧ w'.attrTruthy c "_finalized" = ({} : Wiring.Circ).finalized
+    ∧ (!w'.attrIsNone c "_error") = ({} : Wiring.Circ).stopped
+    ∧ (w'.blocks c).map (·.1) = ({} : Wiring.Circ).order
+    ∧ isCurrentTask w' c = false := by
+  rw [circuitCall_tie] at h
+  simp only [Prod.mk.injEq, Except.ok.injEq] at h
+  obtain ⟨h1, h2⟩ := h
+  subst h1 h2
+  obtain ⟨a, b, c', d, e, f⟩ := newCircuit_state w
+  simp [a, b, c', d, e, f, Gen.Tr.isReady, ErrorReg.St.ready, isCurrentTask]
+
+/-- a freshly imported module has no circuit: the model's initial world -/
+theorem translated_ctor_module_starts_without_circuit :
+    (Gen.TrBC.moduleCurrentCircuit : Option Nat) = ({} : World).current := rfl
+
+/-- `get_circuit()` creates a circuit only when there is none, and then returns the same one again -/
+theorem translated_ctor_get_circuit_idempotent (w : World) :
+    ∃ c, (Gen.TrBC.getCircuit prims w).2 = .ok (some c)
+      ∧ Gen.TrBC.getCircuit prims (Gen.TrBC.getCircuit prims w).1 = ((Gen.TrBC.getCircuit prims w).1, .ok (some c)) := by
+  simp only [getCircuit_tie]
+  refine ⟨_, rfl, ?_⟩
+  have hc : (getCircuit w).1.current = some (getCircuit w).2 := by
+    unfold getCircuit
+    cases hcur : w.current <;> simp [hcur]
+  generalize getCircuit w = r at hc
+  obtain ⟨w1, c⟩ := r
+  simp only at hc
+  simp [getCircuit, hc]
+
+/-- `reset_circuit()` with a current circuit makes a FRESH circuit the current one: not ready, without blocks,
+    not finalized, without error -/
+theorem translated_ctor_reset_gives_fresh_circuit (w : World) (c0 : Nat) (h : w.current = some c0) :
+    ∃ c, (Gen.TrBC.resetCircuit prims w).1.current = some c
+      ∧ isReady (Gen.TrBC.resetCircuit prims w).1 c = false
+      ∧ (Gen.TrBC.resetCircuit prims w).1.blocks c = []
+      ∧ (Gen.TrBC.resetCircuit prims w).1.attrTruthy c "_finalized" = false
+      ∧ (Gen.TrBC.resetCircuit prims w).1.attrIsNone c "_error" = true := by
+  simp only [resetCircuit_tie, resetCircuit, h]
+  generalize (abort w c0 "EdzedCircuitError").1 = w1
+  obtain ⟨a, _, c', d, e, _⟩ := newCircuit_state w1
+  refine ⟨(newCircuit w1).2, rfl, ?_, ?_, ?_, ?_⟩
+  · exact a
+  · exact e
+  · exact d
+  · exact c'
+
+/-- … and without a current circuit it does nothing (the early `return`) -/
+theorem translated_ctor_reset_without_circuit (w : World) (h : w.current = none) :
+    Gen.TrBC.resetCircuit prims w = (w, .ok ()) := by
+  simp [resetCircuit_tie, resetCircuit, h]
+
+/-! #### optional methods, Const -/
+
+/-- `has_method`: the two placeholders `dummy_method` / `dummy_async_method`, a missing attribute, a lookup that
+    raises AttributeError and a non-callable attribute all count as "not defined"; only a lookup that raises
+    something else makes the call itself fail -/
+theorem translated_ctor_has_method_iff (o : Nat) (name : String) (w : World) :
+    ((Gen.TrBC.hasMethod prims o name w).2 = .ok true ↔ lookup w o name = some .method)
+    ∧ ((∃ e, (Gen.TrBC.hasMethod prims o name w).2 = .error e) ↔ lookup w o name = some .propRuntimeError) := by
+  rw [hasMethod_tie]
+  unfold hasMethod
+  cases lookup w o name with
+  | none => simp
+  | some m => cases m <;> simp
+
+/-- `Const(UNDEF)` is refused -/
+theorem translated_ctor_const_undef_refused (cls : String) (w : World) :
+    (Gen.TrBC.constCall prims cls .undef w).2 = .error "ValueError" := by
+  rw [constCall_tie]
+  simp [constCall, Arg.isUndef, Arg.undef]
+
+/-- equal hashable values share ONE instance (`Const(1) is Const(True)`), unhashable ones never do -/
+example :
+    let r1 := Gen.TrBC.constCall prims "Const" (.val (.int 1)) {}
+    let r2 := Gen.TrBC.constCall prims "Const" (.val (.bool true)) r1.1
+    let r3 := Gen.TrBC.constCall prims "Const" (.val (.lst [])) r2.1
+    let r4 := Gen.TrBC.constCall prims "Const" (.val (.lst [])) r3.1
+    r1.2.toOption = some 0 ∧ r2.2.toOption = some 0 ∧ r3.2.toOption = some 1 ∧ r4.2.toOption = some 2 := by decide
 
 end Edzed.TrTie
